@@ -63,8 +63,10 @@ impl VxChannelMap {
     pub uninterp spec fn view(&self) -> Map<ChannelId, ChannelSlotView>;
     #[verifier::external_body]
     pub fn get(&self, id: &ChannelId) -> (r: Option<&VxSlotRef>)
-        ensures r.is_some() == self@.dom().contains(*id), r.is_some() ==> r->Some_0.kind() == self@[*id]
+        ensures r.is_some() == self@.dom().contains(*id), r.is_some() ==> r->Some_0.kind() == self@[*id] && *r->Some_0 == self.slot(*id)
     { unimplemented!() }
+    // the slot (the shared Arc<Mutex<ChannelSlot>>) registered under this id
+    pub uninterp spec fn slot(&self, id: ChannelId) -> VxSlotRef;
     #[verifier::external_body]
     pub fn remove(&mut self, id: &ChannelId) -> (r: Option<VxSlotRef>)
         ensures final(self)@ == old(self)@.remove(*id), r.is_some() == old(self)@.dom().contains(*id)
@@ -77,6 +79,9 @@ impl VxSlotRef {
     pub fn vx_is_stub(&self) -> (r: bool) ensures r == (self.kind() is Stub) { unimplemented!() }
     #[verifier::external_body]
     pub fn vx_forget(&self) -> Result<(), Status> { unimplemented!() }
+    // Arc::clone(slot_arc): another handle on the same slot
+    #[verifier::external_body]
+    pub fn vx_arc_clone(&self) -> (r: VxSlotRef) ensures r == *self { unimplemented!() }
 }
 #[verifier::external_body] pub struct VxPersist { _p: u8 }
 impl VxPersist {
@@ -112,6 +117,18 @@ impl Node {
         ensures final(self).state == old(self).state,
             r.is_ok() ==> r->Ok_0.0 == channel_id,
     { unimplemented!() }
+
+//@fn vls-core/src/node.rs :: impl Node :: get_channel props=C15,C01,C03 optclosures
+//@sigsub /Result<Arc<Mutex<ChannelSlot>>, Status>/ => Result<VxSlotRef, Status>
+    ensures
+        // a request that names a channel id is served by the slot registered under exactly this id, and refused when there is none
+        // (Node::with_channel / with_channel_base - what every per-channel request of the protocol handler goes through - start here)
+        r.is_ok() == self.channels.val@.dom().contains(*channel_id),                                     //[C15.get-channel.known-ids-only]
+        r.is_ok() ==> r->Ok_0 == self.channels.val.slot(*channel_id) && r->Ok_0.kind() == self.channels.val@[*channel_id],   //[C15.get-channel.slot-registered-under-exactly-this-id] [C01.node.request-served-by-the-slot-of-its-channel-id] [C03.node.request-served-by-the-slot-of-its-channel-id]
+//@sub /let mut guard = self\.get_channels\(\);/ => 
+//@sub /guard\.get_mut\(/ => self.channels.val.get(
+//@sub /Arc::clone\((\w+)\)/ => \1.vx_arc_clone()
+//@end
 
 //@fn vls-core/src/node.rs :: impl Node :: new_channel props=C15
 //@sigsub /&self/ => &mut self
